@@ -591,3 +591,53 @@ VK(shorten_path) {
   bool r = ada::helpers::shorten_path(v, t);
   return uint64_t(r) | (vk_put(out, cap, v) << 8);
 }
+
+// ---------------------------------------------------------------- lock-step twins: the same setter on url_aggregator and ada::url (C04, C19)
+// The ada::url is built from the aggregator's getters, i.e. both objects denote the same URL record.
+static inline void vk_url_from_agg(ada::url& v, const ada::url_aggregator& u) {
+  v.type = u.type; v.has_opaque_path = u.has_opaque_path; v.host_type = u.host_type; v.is_valid = true;
+  if (!u.is_special()) { std::string_view p = u.get_protocol(); if (!p.empty()) p.remove_suffix(1); v.non_special_scheme = std::string(p); }
+  v.username = std::string(u.get_username());
+  v.password = std::string(u.get_password());
+  if (u.has_hostname()) v.host = std::string(u.get_hostname());
+  if (u.components.port != ada::url_components::omitted) v.port = uint16_t(u.components.port);
+  v.path = std::string(u.get_pathname());
+  std::string_view b = u.buffer;
+  if (u.has_search()) {
+    size_t e = u.has_hash() ? u.components.hash_start : b.size();
+    v.query = std::string(b.substr(u.components.search_start + 1, e - u.components.search_start - 1));
+  }
+  if (u.has_hash()) v.hash = std::string(b.substr(u.components.hash_start + 1));
+}
+// out[0..32) = aggregator href, out[32..64) = ada::url href ; returns rv_agg | rv_url<<1 | same_flags<<2 | len_agg<<8 | len_url<<24
+#define VK_TWIN(name, CALL)                                                                         \
+  VK(tw_##name) {                                                                                   \
+    UNUSED;                                                                                         \
+    ada::url_aggregator u;                                                                          \
+    vk_load(u, in);                                                                                 \
+    ada::url v;                                                                                     \
+    vk_url_from_agg(v, u);                                                                          \
+    std::string_view val = VK_VALUE;                                                                \
+    bool ra = true, rv = true;                                                                      \
+    { auto& x = u; CALL(ra); }                                                                      \
+    { auto& x = v; CALL(rv); }                                                                      \
+    std::string hv = v.get_href();                                                                  \
+    uint64_t la = vk_put(out, 32, u.buffer);                                                        \
+    uint64_t lv = vk_put(out + 32, 32, hv);                                                         \
+    bool flags = (u.host_type == v.host_type) && (u.has_opaque_path == v.has_opaque_path) && (u.type == v.type); \
+    return uint64_t(ra) | (uint64_t(rv) << 1) | (uint64_t(flags) << 2) | (la << 8) | (lv << 24);    \
+  }
+#define C_SET_PORT(r) r = x.set_port(val)
+#define C_SET_USERNAME(r) r = x.set_username(val)
+#define C_SET_PASSWORD(r) r = x.set_password(val)
+#define C_SET_PROTOCOL(r) r = x.set_protocol(val)
+#define C_SET_SEARCH(r) x.set_search(val)
+#define C_SET_HASH(r) x.set_hash(val)
+#define C_NOP(r) (void)0
+VK_TWIN(nop, C_NOP)
+VK_TWIN(set_port, C_SET_PORT)
+VK_TWIN(set_username, C_SET_USERNAME)
+VK_TWIN(set_password, C_SET_PASSWORD)
+VK_TWIN(set_protocol, C_SET_PROTOCOL)
+VK_TWIN(set_search, C_SET_SEARCH)
+VK_TWIN(set_hash, C_SET_HASH)
